@@ -600,6 +600,7 @@ def index_seq(s, i):
         n = len(s)
         if i >= n or i < -n:
             _raise_if(True, 'IndexError')
+            return '\0' if isinstance(s, str) else 0      # spec mode: reads are total (the value is never relied upon)
         return s[i]
     if isinstance(s, SSeq):
         ii = z3int(i)
@@ -650,6 +651,16 @@ def append_seq(s, v):
 def compare(op, a, b):
     a = to_frac(a)
     b = to_frac(b)
+    if op in ('==', '!=') and isinstance(b, Choice) and not isinstance(a, Choice):
+        a, b = b, a
+    if op in ('==', '!=') and isinstance(a, Choice) and isinstance(b, (str, int, bool, type(None))) and not isinstance(b, Fraction) \
+            and all(isinstance(v, (str, type(None))) for _, v in a.alts):
+        # a guarded union of concrete strings against a concrete value: the disjunction of the guards of the equal alternatives
+        # (the guards of a Choice are exhaustive and mutually exclusive)
+        hit = [c for c, v in a.alts if v == b]
+        e = z3.simplify(z3.Or(hit)) if hit else z3.BoolVal(False)
+        r = mk(e, 'bool')
+        return lnot(r) if op == '!=' else r
     if isinstance(a, Choice) and not is_num_choice(a) and char_code(a) is None:
         r = map_choice(a, lambda x: compare(op, x, b))
         return r
